@@ -11,12 +11,16 @@
      dmat_from_var                            C11_dmat_from_var            (uses eye(d)/d, basis[1:])
      povm_element_from_var                    C11_povm_element_from_var
      choi_from_var                            C11_choi_from_var            (uses eye(d*d)/d, rows a >= 1)
-     mprocess_element_choi_from_var           C11_mp_choi_from_var         (last outcome: sum over range(m-2), no unit vector)
+     mprocess_element_choi_from_var           C11_mp_choi_from_var         (code after fix mprocess-element-choi-from-var-last-outcome:
+                                                                            last outcome  e_0 - sum_{y<m-1} first rows, the same
+                                                                            lines as the _with_sparsity function)
+                                              C11_mp_choi_from_var_before_fix   (as coded BEFORE that fix: last outcome
+                                                                            + sum over range(m-2), no unit vector)
      *_with_sparsity                          C11_*_sp   = cp.reshape(T @ vec, (k,k)) with cvxpy's default
                                               column-major ('F') order, T's columns being ROW-major flattenings *)
 From Coq Require Import Arith List Bool.
 From QV.Core Require Import OF Sums Mat Cplx.
-From QV.Model Require Import QObj.
+From QV.Model Require Import QObj C11_Pgdb.
 Import ListNotations.
 
 Section C11_Cvx.
@@ -34,6 +38,12 @@ Definition C11_state_vec (c : F) (var : rvec F) : rvec F := fun a => match a wit
 Definition C11_povm_vec (D m : nat) (sd : F) (var : rvec F) (x : nat) : rvec F :=
   if (S x <? m)%nat then fun a => var (x * D + a)%nat
   else fun a => (if Nat.eqb a 0 then sd else 0) - sumn (m - 1) (fun y => var (y * D + a)%nat).
+(* Povm.convert_var_to_stacked_vector (on_para_eq_constraint = True) as the affine map  var |-> L var + c  of Model/C11_Pgdb.v
+   ([C11_emb]):  the stacked vector is  C11_povm_vec 0 ++ ... ++ C11_povm_vec (m-1);  L is (m*D) x ((m-1)*D), c = sd at position (m-1)*D *)
+Definition C11_povm_L (D m : nat) : rmat F := fun k j =>
+  if (k <? (m - 1) * D)%nat then (if Nat.eqb k j then 1 else 0)
+  else if Nat.eqb (k - (m - 1) * D) (j mod D) then csub F 0 1 else 0.
+Definition C11_povm_c (D m : nat) (sd : F) : rvec F := fun k => if Nat.eqb k ((m - 1) * D) then sd else 0.
 Definition C11_gate_hs (D : nat) (var : rvec F) : rmat F :=
   fun a b => match a with O => C11_delta b 0 | S a' => var (a' * D + b)%nat end.
 Definition C11_mp_hs (D m : nat) (var : rvec F) (x : nat) : rmat F :=
@@ -57,13 +67,25 @@ Definition C11_choi_from_var (d : nat) (dd : F) (B : nat -> cmat F) (var : rvec 
   fun i j => cadd Cx (zof (C11_delta i j / dd))
     (sumn (d * d - 1) (fun a => sumn (d * d) (fun b =>
         cmul Cx (zof (var (a * (d * d) + b)%nat)) (bbc d B (S a) b i j)))).
-(* mprocess_element_choi_from_var: the flattened HS vector [vec] it builds, then sum_ab vec[a*D+b] * (B_a (x) conj B_b) *)
-Definition C11_mp_vec_coded (D m : nat) (var : rvec F) (x : nat) : rvec F :=
+(* the flattened HS vector [vec] of outcome x built by mprocess_element_choi_from_var (after the fix) and by
+   mprocess_element_choi_from_var_with_sparsity (the two functions share these lines):
+     x < m-1 :  var[x*D*D : (x+1)*D*D]
+     x = m-1 :  hstack([ e_0 + sum_{y<m-1} (- var[y*D*D : y*D*D+D]),  var[(m-1)*D*D : ] ])                       *)
+Definition C11_mp_vec_sp (D m : nat) (var : rvec F) (x : nat) : rvec F :=
+  if (S x <? m)%nat then fun k => var (x * (D * D) + k)%nat
+  else fun k => if (k <? D)%nat then C11_delta k 0 - sumn (m - 1) (fun y => var (y * (D * D) + k)%nat)
+                else var ((m - 1) * (D * D) + (k - D))%nat.
+(* mprocess_element_choi_from_var (dense):  sum_ab vec[a*D+b] * (B_a (x) conj B_b) *)
+Definition C11_mp_choi_from_var (d m : nat) (B : nat -> cmat F) (var : rvec F) (x : nat) : cmat F :=
+  choi_of_hs d B (fun a b => C11_mp_vec_sp (d * d) m var x (a * (d * d) + b)%nat).
+(* the same function AS CODED BEFORE FIX mprocess-element-choi-from-var-last-outcome (kept only so that the refutation
+   theorem and the harness can recognise a regression to the old behaviour; NOT the model the harness expects) *)
+Definition C11_mp_vec_before_fix (D m : nat) (var : rvec F) (x : nat) : rvec F :=
   if (S x <? m)%nat then fun k => var (x * (D * D) + k)%nat
   else fun k => if (k <? D)%nat then sumn (m - 2) (fun y => var (y * (D * D) + k)%nat)
                 else var ((m - 1) * (D * D) + (k - D))%nat.
-Definition C11_mp_choi_from_var (d m : nat) (B : nat -> cmat F) (var : rvec F) (x : nat) : cmat F :=
-  choi_of_hs d B (fun a b => C11_mp_vec_coded (d * d) m var x (a * (d * d) + b)%nat).
+Definition C11_mp_choi_from_var_before_fix (d m : nat) (B : nat -> cmat F) (var : rvec F) (x : nat) : cmat F :=
+  choi_of_hs d B (fun a b => C11_mp_vec_before_fix (d * d) m var x (a * (d * d) + b)%nat).
 
 (* ---- the *_with_sparsity variants ---- *)
 (* cp.reshape(flat, (k, k)) with the default order 'F':  M[i, j] = flat[i + k*j] *)
@@ -84,11 +106,7 @@ Definition C11_gate_vec_sp (D : nat) (var : rvec F) : rvec F :=
   fun k => if (k <? D)%nat then C11_delta k 0 else var (k - D)%nat.
 Definition C11_choi_sp (d : nat) (B : nat -> cmat F) (var : rvec F) : cmat F :=
   C11_reshapeF (d * d) (C11_bbcT_mul d B (C11_gate_vec_sp (d * d) var)).
-(* mprocess_element_choi_from_var_with_sparsity: last outcome v = e0 - sum_{y < m-1} first rows *)
-Definition C11_mp_vec_sp (D m : nat) (var : rvec F) (x : nat) : rvec F :=
-  if (S x <? m)%nat then fun k => var (x * (D * D) + k)%nat
-  else fun k => if (k <? D)%nat then C11_delta k 0 - sumn (m - 1) (fun y => var (y * (D * D) + k)%nat)
-                else var ((m - 1) * (D * D) + (k - D))%nat.
+(* mprocess_element_choi_from_var_with_sparsity: vec = C11_mp_vec_sp (above), then reshape(T @ vec) *)
 Definition C11_mp_choi_sp (d m : nat) (B : nat -> cmat F) (var : rvec F) (x : nat) : cmat F :=
   C11_reshapeF (d * d) (C11_bbcT_mul d B (C11_mp_vec_sp (d * d) m var x)).
 End C11_Cvx.
